@@ -356,8 +356,8 @@ def _is_parser_of(v, e, call):
   """e is parse_predicate_formula[_json](<the new text>)"""
   e = v.res(e)
   return isinstance(e, ast.Call) and dotted(e.func) is not None and \
-      dotted(e.func).split(".")[-1] in PARSERS and len(e.args) == 1 and not e.keywords and \
-      v.denotes(e.args[0], lambda x: x is call)
+      dotted(e.func).split(".")[-1] in PARSERS and len(e.args) + len(e.keywords) == 1 and \
+      v.arg(e, 0) is not None and v.denotes(v.arg(e, 0), lambda x: x is call)
 
 
 def _field_of(v, src):
